@@ -2,6 +2,7 @@ package main
 
 import (
 	"fmt"
+	"google.golang.org/protobuf/types/known/timestamppb"
 	"path/filepath"
 	"strings"
 
@@ -79,6 +80,11 @@ func runC13(seed int64, n int, dir string, tier string) *Report {
 		a.ProtoReflect().Range(func(_ protoreflectFD, _ protoreflectV) bool { pop++; return true })
 		rep.NoteCase(c, pop >= 4, map[string]any{"kind": "node " + kind, "a": nodeJSON(a), "b": nodeJSON(b), "flat_a": fa, "flat_b": fb, "equal": eq})
 		rep.Count("node_pair=" + kind)
+		// equality agrees with checksum equality, both ways round
+		rep.OracleEvals++
+		if sameSum := a.Checksum() == b.Checksum(); sameSum != eq || b.Equal(a) != eq {
+			rep.Fail(Failure{What: "Node.Equal does not agree with checksum equality (or is not symmetric)", Detail: fmt.Sprintf("a.Equal(b)=%v b.Equal(a)=%v checksums equal=%v", eq, b.Equal(a), sameSum), Input: map[string]any{"kind": kind, "a": nodeJSON(a), "b": nodeJSON(b)}})
+		}
 		return eq
 	}
 	edgeCase := func(a, b *sbom.Edge, kind string) bool {
@@ -111,6 +117,18 @@ func runC13(seed int64, n int, dir string, tier string) *Report {
 		g.ShuffleSets(sh.ProtoReflect())
 		if !nodeCase(a, sh, "shuffled") {
 			rep.Fail(Failure{What: "Node.Equal depends on the order of a set-valued attribute", Input: map[string]any{"a": nodeJSON(a), "b": nodeJSON(sh)}})
+		}
+		// dates are compared to the second: a difference below the second is no difference
+		if a.ReleaseDate != nil || a.BuildDate != nil || a.ValidUntilDate != nil {
+			ss := cloneNode(a)
+			for _, ts := range []*timestamppb.Timestamp{ss.ReleaseDate, ss.BuildDate, ss.ValidUntilDate} {
+				if ts != nil {
+					ts.Nanos = (ts.Nanos + 1 + int32(g.Int(900000000))) % 1000000000
+				}
+			}
+			if !nodeCase(a, ss, "dates-differ-below-the-second") {
+				rep.Fail(Failure{What: "Node.Equal tells apart nodes whose dates differ only below the second", Input: map[string]any{"a": nodeJSON(a), "b": nodeJSON(ss)}})
+			}
 		}
 		mut := cloneNode(a)
 		desc := g.MutateOne(mut.ProtoReflect())
